@@ -502,7 +502,7 @@ def near_overflow(s):
 
 def check_classes(consts):
     """class_ok_b of Model/Lexer.v evaluated on every code point with CPython's own functions."""
-    sig = set("\"#.") | IDENT_CHARS | set("".join(consts))
+    sig = set("\"#.+-") | IDENT_CHARS | set("".join(consts))
     letters = set("abcdefghijklmnopqrstuvwxyzABCDEFGHIJKLMNOPQRSTUVWXYZ")
     bad = []
     for cp in range(0x110000):
@@ -659,6 +659,11 @@ def run(ctx):
                 if a + 1 < len(parts):
                     cs.append(parts[a] + parts[a + 1])
                     cs.append(parts[a] + " " + parts[a + 1])
+            for line in (m, il):          # prefixes that start where either side reports an error
+                f = line.split(" ")
+                if f[0] == "E" and f[-1].isdigit():
+                    i0 = int(f[-1])
+                    cs += [s[i0:j] for j in range(i0 + 1, min(len(s), i0 + 48) + 1)]
             cand.append(cs)
         sh = C.run_impl(impl_shrink, cand, ctx["rundir"], limit=30.0)
         for (s, il, m), r in zip(pending[:400], sh):
